@@ -485,13 +485,18 @@ def rules(repo=None):
 
 
 EXPLANATION = (
-    "R1: the 12 stored channel parameters are each read back with the written type, compared against the expression that "
-    "wrote them, with rejecting missing/mismatch branches; the constructor maps non-zero to NULL and the extension maps NULL "
-    "to an exception. R2: the verify branch of digital_rf_handle_metadata and every path of the C and Python constructors "
-    "before the comparison contain no persistent effect. R3: access(final name) dominates the H5F_ACC_EXCL create and its "
-    "refusal returns an error without touching has_failure. R4: read/get_continuous_blocks/get_bounds iterate over the "
-    "whole top-level directory list with no early exit. R5: get_bounds merges the first and the last sample of each directory with two "
-    "independent comparisons. R6 (= C04.R8): the existence test and the create use the sub-directory computed for this file (the remembered field is set or compared on every path). R7: the writer stays usable after a refusal: `file_exists = 1` is unsatisfiable with the file handle zero, or the create function never returns an error after storing the remembered name without an open file (CFG reach + truth table). Does NOT decide union/bounds arithmetic across sessions.")
+    'R1: the 12 stored channel parameters are each read back with the written type, compared against the expression that '
+    'wrote them, with rejecting missing/mismatch branches; the constructor maps non-zero to NULL and the extension maps '
+    'NULL to an exception. R2: the verify branch of digital_rf_handle_metadata and every path of the C and Python '
+    'constructors before the comparison contain no persistent effect. R3: access(final name) dominates the H5F_ACC_EXCL '
+    'create and its refusal returns an error without touching has_failure. R4: read/get_continuous_blocks/get_bounds '
+    'iterate over the whole top-level directory list with no early exit. R5: get_bounds merges the first and the last '
+    'sample of each directory with two independent comparisons. R6 (= C04.R8): the existence test and the create use the '
+    'sub-directory computed for this file (the remembered field is set or compared on every path). R7: the writer stays '
+    'usable after a refusal: `file_exists = 1` is unsatisfiable with the file handle zero, or the create function never '
+    'returns an error after storing the remembered name without an open file (CFG reach + truth table). R8: in '
+    'get_last_write the early `return (mtime, path)` sits in two nested loops with the candidate files (newest first) '
+    'outside and the top-level directories inside. Does NOT decide union/bounds arithmetic across sessions.')
 TECHNIQUE = ("clang JSON AST + Python ast; attribute comparison table; effect-free prefix by effect summaries; dominance of the existence test; CFG must-pass in the reader's directory loops")
 ASSUMPTIONS = ["H5F_ACC_EXCL fails on an existing file", "the same file period is never recorded in two directories (format rule)"]
 FILES = [C_LIB, C_EXT, "python/digital_rf/digital_rf_hdf5.py"]
